@@ -4,12 +4,17 @@ package sm2_test
 
 import (
 	"bytes"
+	cryptorand "crypto/rand"
 	"encoding/json"
 	"errors"
 	"fmt"
 	"io"
 	"math/big"
+	"os"
+	"strings"
+	"syscall"
 	"testing"
+	"time"
 
 	"github.com/bilibili/smgo/sm2"
 	"verif/refs/sm2ref"
@@ -31,6 +36,38 @@ type c19case struct {
 	Shape  string
 	E, D   string // optional overrides (hex) of digest and private key, used by the solved rejection kinds
 	Reject []int  // draw indexes that a correct signer rejects for reasons other than the k-range (r=0, r+k=n, s=0)
+	// ErrKind selects the dynamic type of the injected error: "" plain; temporary (Temporary() true); timeout; eagain
+	// (syscall.EAGAIN); patherror (*os.PathError around EAGAIN); wrapped (fmt.Errorf %w around EINTR); noprogress; unexpectedeof
+	ErrKind string
+	// ViaGlobal installs the scripted reader as crypto/rand.Reader for the duration of the call and passes that very
+	// value as the rand argument (a library that recognises "the system generator" must still report its failures)
+	ViaGlobal bool
+}
+
+type tempError struct{ timeout bool }
+
+func (e tempError) Error() string   { return "injected temporary randomness failure" }
+func (e tempError) Temporary() bool { return true }
+func (e tempError) Timeout() bool   { return e.timeout }
+
+func c19err(kind string) error {
+	switch kind {
+	case "temporary":
+		return tempError{}
+	case "timeout":
+		return tempError{true}
+	case "eagain":
+		return syscall.EAGAIN
+	case "patherror":
+		return &os.PathError{Op: "read", Path: "/dev/urandom", Err: syscall.EAGAIN}
+	case "wrapped":
+		return fmt.Errorf("entropy source: %w", syscall.EINTR)
+	case "noprogress":
+		return io.ErrNoProgress
+	case "unexpectedeof":
+		return io.ErrUnexpectedEOF
+	}
+	return errInjected
 }
 
 var errInjected = errors.New("injected randomness failure")
@@ -41,6 +78,7 @@ type scriptedReader struct {
 	script []string
 	call   int
 	failed bool
+	errv   error // the error value handed out by err:/fullerr answers (nil: errInjected)
 }
 
 func (s *scriptedReader) Read(p []byte) (int, error) {
@@ -83,12 +121,18 @@ func (s *scriptedReader) Read(p []byte) (int, error) {
 		return 0, nil
 	case "err":
 		s.failed = true
+		if s.errv != nil {
+			return give(k), s.errv
+		}
 		return give(k), errInjected
 	case "eof":
 		s.failed = true
 		return give(k), io.EOF
 	case "fullerr":
 		s.failed = true
+		if s.errv != nil {
+			return give(len(p)), s.errv
+		}
 		return give(len(p)), errInjected
 	}
 	panic("bad script answer " + ans)
@@ -125,7 +169,13 @@ func c19call(fn string, rd io.Reader, d, e, za, id, msg, px, py []byte) (out [][
 	return
 }
 
+var c19hung = map[string]bool{}
+
 func c19eval(r *vx.R, c c19case) {
+	combo := fmt.Sprintf("%s/%v/%s", c.Fn, c.ViaGlobal, c.ErrKind)
+	if c19hung[combo] {
+		return // this entry point already hung once in this process with this kind of source: one report is enough
+	}
 	r.Eval(1)
 	cm := c19cands()
 	var data []byte
@@ -151,7 +201,7 @@ func c19eval(r *vx.R, c c19case) {
 	// expected outcome from the reference semantics: simulate io.ReadFull over the script
 	// draws: 32-byte units; a draw fails iff an error answer arrives before its 32 bytes are complete
 	// (io.ReadFull drops the error when the buffer was completed by that same call).
-	sim := &scriptedReader{data: data, script: c.Script}
+	sim := &scriptedReader{data: data, script: c.Script, errv: c19err(c.ErrKind)}
 	wantErr := false
 	var accepted []byte
 	rejectDraw := map[int]bool{}
@@ -179,11 +229,26 @@ func c19eval(r *vx.R, c c19case) {
 			break
 		}
 	}
-	rd := &scriptedReader{data: data, script: c.Script}
+	rd := &scriptedReader{data: data, script: c.Script, errv: c19err(c.ErrKind)}
 	var out [][]byte
 	var err error
-	kind, m := vx.Try(func() { out, err = c19call(c.Fn, rd, d, e, za, id, msg, px, py) })
+	kind, m := vx.TryTimeout(func() {
+		if c.ViaGlobal {
+			old := cryptorand.Reader
+			cryptorand.Reader = rd
+			defer func() { cryptorand.Reader = old }()
+			out, err = c19call(c.Fn, cryptorand.Reader, d, e, za, id, msg, px, py)
+			return
+		}
+		out, err = c19call(c.Fn, rd, d, e, za, id, msg, px, py)
+	}, 60*time.Second)
 	key := "rand:" + c.Fn
+	if kind == "hang" {
+		c19hung[combo] = true
+		r.NotExhaustive("after a hang the remaining cases of " + combo + " are skipped")
+		r.Violation(key+":hang", fmt.Sprintf("the call never returned under reader script %v (error kind %q, via crypto/rand.Reader: %v): %s", c.Script, c.ErrKind, c.ViaGlobal, m), c)
+		return
+	}
 	if kind != "" {
 		r.Violation(key+":panic", fmt.Sprintf("panicked under reader script %v: %s", c.Script, m), c)
 		return
@@ -247,7 +312,7 @@ func c19eval(r *vx.R, c c19case) {
 }
 
 func TestVX_C19(t *testing.T) {
-	r := vx.Begin("C19", "failing-rand", "scripted io.Reader: per Read call one answer from {full; short k (k in 1,16,31); zero bytes nil; k bytes+error (k in 0,1,16,31); k bytes+EOF; full+error}. Enumerated: every position of the first failure = (draw index j in 0..3 after j rejected candidates from {0,n,n-1(keygen),max}) x (byte offset 0,1,16,31 via a preceding short read, and full+error) x failure kind; every script of <=2 non-failing deviations (short/zero reads) without error; stalls of m consecutive empty reads, m in {3..1000} [thorough: 4096, 100000], at byte offset 0/1/31 of draw 0/1, followed by data / error / EOF; runs of m rejected candidates, m in {8..1000}, followed by an acceptable one / an error / EOF; GenerateKey(nil). Entry points GenerateKey, SignHashed, SignZa, Sign; for SignHashed also after a candidate rejected late (r=0, r+k=n, s=0 - digest resp. key solved). Oracle: io.ReadFull semantics simulated on the same script: failure before a complete acceptable candidate => err!=nil and no public key/signature; otherwise output identical to a perfect reader on the same bytes (and to sm2ref). Shape=(entry, rejected prefix, failure kind, offset)")
+	r := vx.Begin("C19", "failing-rand", "scripted io.Reader: per Read call one answer from {full; short k (k in 1,16,31); zero bytes nil; k bytes+error (k in 0,1,16,31); k bytes+EOF; full+error}. Enumerated: every position of the first failure = (draw index j in 0..3 after j rejected candidates from {0,n,n-1(keygen),max}) x (byte offset 0,1,16,31 via a preceding short read, and full+error) x failure kind; every script of <=2 non-failing deviations (short/zero reads) without error; stalls of m consecutive empty reads, m in {3..1000} [thorough: 4096, 100000], at byte offset 0/1/31 of draw 0/1, followed by data / error / EOF; runs of m rejected candidates, m in {8..1000}, followed by an acceptable one / an error / EOF; GenerateKey(nil); every case a second time with the scripted reader installed as crypto/rand.Reader and that value passed as the source; failures with errors of other dynamic types (Temporary() / Timeout() true, syscall.EAGAIN, *os.PathError, wrapped EINTR, io.ErrNoProgress, io.ErrUnexpectedEOF). Entry points GenerateKey, SignHashed, SignZa, Sign; for SignHashed also after a candidate rejected late (r=0, r+k=n, s=0 - digest resp. key solved). Oracle: io.ReadFull semantics simulated on the same script: failure before a complete acceptable candidate => err!=nil and no public key/signature; otherwise output identical to a perfect reader on the same bytes (and to sm2ref). Shape=(entry, rejected prefix, failure kind, offset)")
 	defer r.End()
 	selfCheck()
 	if raw, ok := vx.Replay("failing-rand"); ok {
@@ -268,6 +333,22 @@ func TestVX_C19(t *testing.T) {
 		}
 		c19eval(r, c)
 		r.Sample(c)
+		g := c
+		g.ViaGlobal = true
+		g.Shape += ":via-crypto/rand.Reader"
+		c19eval(r, g)
+		failing := false
+		for _, a := range c.Script {
+			failing = failing || strings.HasPrefix(a, "err:") || a == "fullerr"
+		}
+		if failing && (strings.Contains(c.Shape, ":off0") || strings.Contains(c.Shape, ":off16")) {
+			for _, ek := range []string{"temporary", "timeout", "eagain", "patherror", "wrapped", "noprogress", "unexpectedeof"} {
+				k := c
+				k.ErrKind = ek
+				k.Shape += ":" + ek
+				c19eval(r, k)
+			}
+		}
 	}
 	fns := []string{"genkey", "signhashed", "signza", "sign"}
 	rejs := map[string][]string{"genkey": {"0", "n", "n-1", "max"}, "signhashed": {"0", "n", "max"}, "signza": {"n", "0"}, "sign": {"max", "0"}}
